@@ -42,7 +42,7 @@ def gen_program(rng):
         for _ in range(n):
             k = rng.random()
             if k < 0.45:
-                op = ["cb", rng.choice(["ret", "ret", "raise", "arity", "typeerr-noextra", "ret-noextra"])]
+                op = ["cb", rng.choice(["ret", "ret", "raise", "arity", "typeerr-noextra", "ret-noextra", "rereg", "ret-shared", "ret-shared"])]
                 if rng.random() < 0.3:
                     op.append(rng.choice(["partial", "object", "boundmethod"]))
                 out.append(op)
@@ -89,6 +89,21 @@ class FutRun(object):
             s.emit("task.exit")
 
     def make_cb(self, reg, kind, shape=None):
+        if kind == "ret-shared":
+            # one and the same callable registered several times, each time with another extra: an invocation is
+            # attributed to the registration whose extra it received
+            s = self.s
+            run = self
+            if getattr(self, "_shared", None) is None:
+                def shared(result, exception, extra):
+                    s.emit("cb.call", str(extra), result is run.obj, result is None, exception is run.exc, exception is None, True)
+
+                class Listener(object):
+                    def on_done(self, result, exception, extra):
+                        shared(result, exception, extra)
+
+                self._shared = (shared, Listener())
+            return self._shared[1].on_done if shape == "boundmethod" else self._shared[0]
         cb = self._make_cb(reg, kind)
         if shape == "partial":
             import functools
@@ -125,6 +140,18 @@ class FutRun(object):
             def cb(result, exception, extra):
                 record(result, exception, extra)
                 raise CallbackError(reg)
+            return cb
+        if kind == "rereg":
+            # a callback that registers another callback on the same future while it runs
+            inner_reg = reg + "i"
+
+            def inner(result, exception, extra):
+                s.emit("cb.call", inner_reg, result is run.obj, result is None, exception is run.exc, exception is None,
+                       extra == inner_reg)
+
+            def cb(result, exception, extra):
+                record(result, exception, extra)
+                run.fut.set_callback(inner, inner_reg)
             return cb
         if kind in ("typeerr-noextra", "ret-noextra"):
             # registered without an extra argument; tolerant signature; may fail with a TypeError of its own
@@ -303,6 +330,16 @@ def analyse(program, log, verdict, thread_errors=()):
                 v.append(Violation("C16", "callback-args", "outcome", "callback %s received a wrong (result, exception) pair" % reg))
             if not extra_ok:
                 v.append(Violation("C16", "callback-args", "extra", "callback %s received the extra of another registration" % reg))
+        if kind == "rereg" and calls:
+            inner = cbs.get(reg + "i", [])
+            if len(inner) != 1:
+                v.append(Violation("C16", "callback-once", "registered-from-callback-%d" % min(len(inner), 2),
+                                   "the callback registered by callback %s while it ran was invoked %d times" % (reg, len(inner))))
+            for c in inner:
+                idx, is_obj, res_none, is_exc, exc_none, extra_ok = c
+                good = (is_obj and exc_none) if tk == "ret" else (res_none and is_exc)
+                if not good or not extra_ok:
+                    v.append(Violation("C16", "callback-args", "registered-from-callback", "callback registered by %s received wrong arguments" % reg))
     info = {"B": B, "T1": T1, "regs": regs, "cbs": cbs, "ops": ops}
     return v, info
 
@@ -330,6 +367,12 @@ class FutScenario(object):
                 p["callback_registered_before_completion"] = 1
             if o["op"][1] == "raise" and info["cbs"].get("r%d.%d" % (o["ti"], o["oi"])):
                 p["raising_callback_invoked"] = 1
+            if o["op"][1] == "rereg" and info["cbs"].get("r%d.%di" % (o["ti"], o["oi"])):
+                p["callback_registered_from_callback"] = 1
+        if sum(1 for o in info["regs"] if o["op"][1] == "ret-shared" and o["ret"] < B) > 1:
+            p["same_callable_registered_twice_before_completion"] = 1
+        for o in []:
+            pass
         for o in info["ops"].values():
             if o["name"] == "res" and o["out"] == "timeout":
                 p["result_timeout"] = 1
